@@ -26,14 +26,20 @@ ENV["CARGO_NET_OFFLINE"] = "true"
 ENV.setdefault("CARGO_TERM_COLOR", "never")
 
 CHECK_RE = re.compile(
-    r"Check \d+: (?P<name>\S+)\n\s*- Status: (?P<status>\w+)\n\s*- Description: \"(?P<desc>(?:[^\"\\]|\\.)*)\"(?:\n\s*- Location: (?P<loc>[^\n]*))?"
+    r"Check \d+: (?P<name>[^\n]+)\n\s*- Status: (?P<status>\w+)\n\s*- Description: \"(?P<desc>[^\n]*)\"(?:\n\s*- Location: (?P<loc>[^\n]*))?"
 )
+
+
+# CBMC's optional float checks flag IEEE-754 results that are legal in Rust (inf - inf = NaN, overflow to inf);
+# they are neither panics nor undefined behaviour and are not part of any property here.
+BENIGN = (r"^NaN on (addition|subtraction|multiplication|division)", r"^arithmetic overflow on floating-point")
 
 
 class Obl:
     """A K obligation: harness `mod::name` of crate `crate` (directory under /verif/kani)."""
 
-    def __init__(self, harness, crate="avk", timeout=300, mem_gb=16, extra=(), note="", tier="quick"):
+    def __init__(self, harness, crate="avk", timeout=300, mem_gb=16, extra=(), note="", tier="quick",
+                 allow_fail=(), require_fail=(), allow_panic=(), must_panic=False):
         self.harness = harness
         self.crate = crate
         self.timeout = timeout
@@ -41,6 +47,12 @@ class Obl:
         self.extra = list(extra)
         self.note = note
         self.tier = tier
+        # expected (mandated) panics: regexes over "<description> @ <location>" of failed checks that are allowed,
+        # and that must be present (the reachability witness of a must-panic harness, whose end is unreachable)
+        self.allow_fail = tuple(allow_fail) + BENIGN
+        self.require_fail = tuple(require_fail)
+        self.allow_panic = tuple(allow_panic)
+        self.must_panic = must_panic
 
     @property
     def full(self):
@@ -104,6 +116,10 @@ def _run(cmd, cwd, timeout, mem_gb, logpath):
 def parse(text):
     """Parse Kani's regular output."""
     checks = [m.groupdict() for m in CHECK_RE.finditer(text)]
+    for c in checks:
+        d = c["desc"]
+        if len(d) >= 2 and d[0] == '"' and d[-1] == '"':
+            c["desc"] = d[1:-1]
     verdict = None
     m = re.search(r"VERIFICATION:- (\w+)", text)
     if m:
@@ -188,6 +204,8 @@ def run_obligation(ob, logdir):
                            reason="vacuity guard: cover not satisfied: %s" % [c["desc"] for c in bad])
             elif not any(c["desc"] == "end-reached" for c in covers):
                 res.update(status="inconclusive", reason="vacuity guard: no end-reached cover in output")
+            elif ob.require_fail:
+                res.update(status="inconclusive", reason="vacuity guard: the mandated panic was not reached")
             else:
                 res.update(status="proved")
             return res
@@ -196,6 +214,31 @@ def run_obligation(ob, logdir):
         unwind = [c for c in failed if "unwinding assertion" in c["desc"]]
         unsupported = [c for c in failed if "unsupported" in c["desc"].lower() or "not currently supported" in c["desc"]]
         real = [c for c in failed if c not in unwind and c not in unsupported]
+        allowed = [c for c in real if any(re.search(a, "%s @ %s" % (c["desc"], c.get("loc"))) for a in ob.allow_fail)]
+        real = [c for c in real if c not in allowed]
+        res["allowed_failures"] = sorted(set(c["desc"] for c in allowed))
+        if not real and not unwind and not unsupported:
+            # only benign / mandated failures: judge by covers and by the presence of the mandated panic
+            missing = [r for r in ob.require_fail if not any(re.search(r, "%s @ %s" % (c["desc"], c.get("loc"))) for c in allowed)]
+            reach = [c for c in covers if c["desc"].startswith("must-be-unreachable:") and c["status"] == "SATISFIED"]
+            notsat = [c for c in covers if not c["desc"].startswith("must-be-unreachable:") and c["status"] != "SATISFIED"
+                      and not (ob.must_panic and c["desc"] == "end-reached")]
+            if p["undetermined"]:
+                res.update(status="inconclusive", reason="undetermined checks")
+                return res
+            if reach:
+                real = [{"desc": c["desc"], "loc": c.get("loc"), "name": c["name"]} for c in reach]
+            elif missing:
+                res.update(status="inconclusive", reason="vacuity guard: mandated panic not reached: %s" % missing)
+                return res
+            elif notsat:
+                res.update(status="inconclusive", reason="vacuity guard: cover not satisfied: %s" % [c["desc"] for c in notsat])
+                return res
+            elif ob.must_panic and any(c["desc"] == "end-reached" and c["status"] == "SATISFIED" for c in covers):
+                real = [{"desc": "must-be-unreachable:end-reached", "loc": None, "name": "end"}]
+            else:
+                res.update(status="proved")
+                return res
         res["failed"] = [{"role": c["desc"], "loc": c.get("loc"), "check": c["name"]} for c in real]
         if not real:
             why = "unwinding bound too small" if unwind else ("unsupported construct" if unsupported else "FAILED without failed checks")
